@@ -13,7 +13,7 @@ From E57 Require Import Base.Prelude Base.Floats Model.Device Model.PagedWriter 
   Model.Meta Model.MetaFile Model.XmlTree Model.XmlGen Model.XmlParse Model.XmlExtract Spec.XmlRender Spec.MetaTree
   Spec.XgWriterOk Spec.XeMetaOk Spec.FileSpecXml Model.WriterApi Model.WriterFull.
 From E57 Require Import Proofs.PagedWriterProofs Proofs.ProgTransfer Proofs.FileRtWriter Proofs.SpecWriter Proofs.SpecWriterOk
-  Proofs.SpecXml Proofs.XgRender Proofs.XgWf Proofs.XgTotal Proofs.XeTreeMain
+  Proofs.SpecXml Proofs.SpecProtoFinal Proofs.WapiFloatLimits Proofs.XgRender Proofs.XgWf Proofs.XgTotal Proofs.XeTreeMain
   Proofs.WapiProg Proofs.WapiInv Proofs.WapiMain Proofs.WapiFullProg Proofs.WapiFullMeta Proofs.WapiFullInv Proofs.WapiFull.
 From Coq Require Import ZifyN ZifyNat ZifyBool.
 Open Scope N_scope.
@@ -267,6 +267,9 @@ Hypothesis plain32 : forall b, plain_text (fmt32 b) = true.
 Hypothesis back64 : forall b, pf64 (fmt64 b) = Some (canon64 b).
 Hypothesis back32 : forall b, pf32 (fmt32 b) = Some (canon32 b).
 Hypothesis version_ok : string_ok (lib_version_text version) = true.
+(** the float oracles read "0" as +0.0 (the sample value of a prototype element without limits) *)
+Hypothesis zero64 : pf64 [48] = Some 0.
+Hypothesis zero32 : pf32 [48] = Some 0.
 
 Notation G := (gen_xml_full fmt64 fmt32).
 Notation L := (lib_version_text version).
@@ -321,7 +324,9 @@ Proof.
   rewrite Hxml in Hrun'.
   pose proof (writer_file_wellformed_xml pf64 pf32 fdiv is os s' m m' writer_choices rest
                 (items_wf_typed is (explains_items_wf _ _ _ _ _ _ Hex))
-                (tree_of_wf m M1 M2) (extract_tree_of pf64 pf32 fdiv m M3 M4) Hdesc Hrun') as Hspec.
+                (tree_of_wf m M1 M2) (extract_tree_of pf64 pf32 fdiv m M3 M4) Hdesc
+                (tree_of_proto_values_ok pf64 pf32 m M3 M4 zero64 zero32 (meta_limits_ordered fmt64 fmt32 (ws_meta st) Hp))
+                Hrun') as Hspec.
   cbv zeta in Hspec. rewrite Hsame in Hspec. rewrite <- Hxml in Hspec.
   destruct (Hspec Hfsz) as (Hw & cs & Hd & Hlen & Hin).
   split; [exact Hw|]. exists is, os, xml, bl, cs. repeat split; assumption.
